@@ -527,18 +527,25 @@ func drawPair(ch chooser, o pairOpts) Pair {
 			p.Path = path
 		}
 	}
+	// (rapid draws small numbers more often: the common styles come first)
 	switch {
-	case style <= 1: // conforming
-	case style <= 3:
+	case style >= 9: // conforming
+	case style >= 5 && style <= 6:
 		applyConv()
 		if ch.Pick(2, "twice") == 1 {
 			applyConv()
 		}
-	case style <= 8:
+	case style <= 4:
 		applyNear()
-	case style == 9:
+	case style == 7:
 		applyConv()
+		wasConv := p.Class == "convertible"
 		applyNear()
+		if wasConv && len(p.Path) > 0 {
+			// two deviations: which one a refusal reports is not determined
+			p.Class = "conv+" + p.Class
+			p.Path = nil
+		}
 	default:
 		t2 := (&typeGen{ch: ch, json: o.json, names: tg.names}).typ(o.depth)
 		if ch.Pick(3, "sameNames") == 0 {
